@@ -14,15 +14,30 @@ pub struct R<'a> {
     pub f: &'a Formatter,
     /// stratum tag for interval pictures: does the picture start with the sign-carrying field?
     pub tag: &'a str,
+    /// index of the injected "current date" (a lossless picture must not care), 0 = the pinned default
+    pub clk: u8,
+    /// bit k: before the round trip the same Formatter object is asked to parse the text as type ALL_TY[k]
+    pub pre: u8,
+}
+/// hostile "current dates": short months, leap day, range ends, year ends
+pub const CLOCKS: &[(i32, u32, u32)] = &[(2021, 3, 11), (2023, 2, 15), (2024, 2, 29), (2025, 4, 30), (1, 1, 1), (9999, 12, 31), (2000, 1, 31), (1999, 12, 31), (2022, 6, 1), (2026, 11, 30), (1900, 2, 28), (2026, 9, 9)];
+pub fn clk_of(h: u64) -> u8 {
+    (h % CLOCKS.len() as u64) as u8
 }
 impl<'a> Case for R<'a> {
     fn to_json(&self) -> Value {
-        json!({"kind": "roundtrip", "value": self.v.to_json(), "show": self.v.show(), "picture": self.pic, "tag": self.tag})
+        json!({"kind": "roundtrip", "value": self.v.to_json(), "show": self.v.show(), "picture": self.pic, "tag": self.tag, "clock": self.clk, "pre": self.pre})
     }
 }
 
 pub fn check(st: &mut Stats, c: &R) {
-    pin_clock();
+    if c.clk == 0 {
+        pin_clock();
+    } else {
+        let (y, m, d) = CLOCKS[c.clk as usize % CLOCKS.len()];
+        sqldatetime::verif_hooks::set_clock(y, m, d, 23, 59, 59, 999_999);
+        st.bump("round trips under a hostile injected current date");
+    }
     let lv = match c.v.to_lib() {
         Some(x) => x,
         None => {
@@ -36,6 +51,16 @@ pub fn check(st: &mut Stats, c: &R) {
         Ok(t) => t,
         Err(e) => return st.fail(format!("C06/{}/format-fails", ty.name()), format!("{} under {:?}: {}", c.v.show(), c.pic, e)),
     };
+    if c.pre != 0 {
+        // history: the same Formatter object first serves other types (whatever they answer), then this one
+        for (k, ty2) in ALL_TY.iter().enumerate() {
+            if c.pre >> k & 1 == 1 && *ty2 != ty {
+                st.op(Op::F_parse);
+                let _ = parse_as(*ty2, c.f, &text);
+                st.bump("round trips after the same Formatter object served another type");
+            }
+        }
+    }
     st.op(Op::F_parse);
     match parse_as(ty, c.f, &text) {
         Ok(back) => {
@@ -124,7 +149,7 @@ pub fn run(ctx: &Ctx, st: &mut Stats) {
         // all fixed pictures + a rotating window of the generated ones
         for (k, p) in ps.iter().enumerate() {
             if k < FIXED_DATE_PICS.len() || (k + i as usize) % 8 == 0 {
-                st.eval(&R { v: V::Date(y, m, d), pic: &p.text, f: &p.f, tag: "" }, check);
+                st.eval(&R { v: V::Date(y, m, d), pic: &p.text, f: &p.f, tag: "", clk: clk_of(i as u64 / 3 + k as u64), pre: if (i + k as i64) % 5 == 0 { 0b111110 } else { 0 } }, check);
             }
         }
     });
@@ -138,7 +163,7 @@ pub fn run(ctx: &Ctx, st: &mut Stats) {
         let (h, mi, sec) = ((s / 3600) as u32, (s / 60 % 60) as u32, (s % 60) as u32);
         for (k, p) in pools[1].iter().enumerate() {
             if (k + i as usize) % 4 == 0 {
-                st.eval(&R { v: V::Time(h, mi, sec, ((s * 7919) % 1_000_000) as u32), pic: &p.text, f: &p.f, tag: "" }, check);
+                st.eval(&R { v: V::Time(h, mi, sec, ((s * 7919) % 1_000_000) as u32), pic: &p.text, f: &p.f, tag: "", clk: 0, pre: if i % 3 == 0 { 0b100000 } else { 0 } }, check);
             }
         }
     });
@@ -155,7 +180,7 @@ pub fn run(ctx: &Ctx, st: &mut Stats) {
         let ps = &pools[2];
         if !ps.is_empty() {
             let p = &ps[i % ps.len()];
-            st.eval(&R { v, pic: &p.text, f: &p.f, tag: "" }, check);
+            st.eval(&R { v, pic: &p.text, f: &p.f, tag: "", clk: clk_of(i as u64), pre: if i % 2 == 0 { 0b001000 } else { 0 } }, check);
         }
     });
     // boundary + random values of every type x generated pictures (fresh pictures as well, thorough)
@@ -171,7 +196,7 @@ pub fn run(ctx: &Ctx, st: &mut Stats) {
                     if let Some(f) = compile_picture(st, &g.text, Some("C06/lossless-picture-rejected")) {
                         let tag = interval_tag(ty, &g.toks);
                         let h = mix(hash64(g.text.as_bytes()), hash64(v.show().as_bytes()));
-                        st.eval_h(h, &R { v, pic: &g.text, f: &f, tag }, check);
+                        st.eval_h(h, &R { v, pic: &g.text, f: &f, tag, clk: clk_of(h), pre: if h >> 8 & 3 == 0 { (h >> 10) as u8 & 63 } else { 0 } }, check);
                     }
                 }
                 None => st.skipped += 1,
@@ -185,7 +210,7 @@ pub fn run(ctx: &Ctx, st: &mut Stats) {
             let p = &ps[rng.below(ps.len() as u64) as usize];
             let tag = interval_tag(ty, &p.toks);
             let h = mix(hash64(p.text.as_bytes()), hash64(v.show().as_bytes()));
-            st.eval_h(h, &R { v, pic: &p.text, f: &p.f, tag }, check);
+            st.eval_h(h, &R { v, pic: &p.text, f: &p.f, tag, clk: clk_of(h), pre: if h >> 8 & 3 == 0 { (h >> 10) as u8 & 63 } else { 0 } }, check);
         }
     });
     // record how many distinct pictures were in play
@@ -205,7 +230,9 @@ pub fn replay(v: &Value, st: &mut Stats) -> bool {
     let p = jstr(v, "picture");
     let tag = jstr(v, "tag");
     if let Some(f) = compile_picture(st, &p, Some("C06/lossless-picture-rejected")) {
-        st.eval(&R { v: val, pic: &p, f: &f, tag: &tag }, check);
+        let clk = v.get("clock").and_then(|x| x.as_u64()).unwrap_or(0) as u8;
+        let pre = v.get("pre").and_then(|x| x.as_u64()).unwrap_or(0) as u8;
+        st.eval(&R { v: val, pic: &p, f: &f, tag: &tag, clk, pre }, check);
     }
     true
 }
